@@ -30,7 +30,7 @@ def const(v):
     return {'k': 'const', 'v': v}
 
 
-STR_POOL = ['', 'a', 'ab', 'abc', ' a ', 'B', 'hello world', 'x y', 'é', '日本', 'aXbXc', 'Zz', '  ']
+STR_POOL = ['', 'a', 'ab', 'abc', ' a ', 'B', 'hello world', 'x y', '€', '日本', 'aXbXc', 'Zz', '  ']
 INT_POOL = [-7, -3, -1, 0, 1, 2, 3, 5, 10, 12]
 NUM_POOL = [Fraction(-15, 2), Fraction(-5, 4), Fraction(-1), Fraction(0), Fraction(1, 4), Fraction(1, 2), Fraction(1),
             Fraction(5, 4), Fraction(5, 2), Fraction(33, 10), Fraction(10), Fraction(7, 5)]
@@ -55,7 +55,7 @@ def key_value(rnd, t, space):
     if t == 'Integer':
         return I(rnd.randrange(1, space + 1))
     if t == 'String':
-        return S(rnd.choice(['a', 'b', 'c', 'A', 'd e', 'ü'][:max(2, min(space, 6))]))
+        return S(rnd.choice(['a', 'b', 'c', 'A', 'd e', '€'][:max(2, min(space, 6))]))
     raise ValueError(t)
 
 
